@@ -257,8 +257,8 @@ def gen_blocks(c, depth, n, in_item=False, in_quote=False, tight=False):
     t = c.t
     out = []
     for _ in range(n):
-        if c.blocks >= c.max_blocks:
-            break
+        if c.blocks >= c.max_blocks or (out and t.exhausted()):
+            break                # (an exhausted tape would only add minimal 'alpha' paragraphs)
         c.blocks += 1
         k = t.below(100)
         if c.outline and not tight and t.chance(150):
